@@ -13,7 +13,7 @@ func init() {
 	core.Register(&core.Check{
 		ID:    "C06",
 		Level: "exploration",
-		Rule: "one run = one generated application with CATCH/CROAK on client flags in both modes (in preludes and after HALT) whose external functions return arbitrary FlagSet/FlagReset lists over 0..8+FlagCount-1 (reserved 0..5, TERMINATE, LANG, client flags; FlagCount 0..40) + an input history with restarts; " +
+		Rule: "one run = one generated application with CATCH/CROAK on client flags in both modes (in preludes and after HALT) whose external functions return arbitrary FlagSet/FlagReset lists over 0..8+FlagCount-1 (reserved 0..5, TERMINATE, LANG, client flags; FlagCount 0..2100, i.e. also indices beyond one byte and flag fields longer than 255 bytes) + an input history with restarts; " +
 			"(A) moves, position and client flags after every request must equal the reference model's; (B) a twin whose external results have the indices 0..5 stripped must produce identical outputs, results and stored flag bytes; (C) from the request in which TERMINATE was set every request must report stop and run nothing; " +
 			"non-trivial = at least one CATCH or CROAK whose flag was changed by external code during the run, or a TERMINATE block of >= 2 requests, or a reserved index requested; distinct = distinct sequences of (path, flags)",
 		Runs:       map[string]int{"quick": 40000, "thorough": 3000000},
@@ -76,7 +76,7 @@ func runC06(c *core.Ctx) *core.Outcome {
 	cfg.FinishAlways = true
 	cfg.CacheSize = 0
 	cfg.OutputSize = 0
-	cfg.FlagCount = uint32([]int{1, 3, 8, 9, 0, 40}[t.Int(6)])
+	cfg.FlagCount = uint32([]int{1, 3, 8, 9, 0, 40, 250, 300, 1000, 2100}[t.Int(10)])
 	cfg.First = t.Chance(1, 3)
 	a := app.Generate(t, c06Profile(cfg.FlagCount, t.Chance(3, 4)))
 	if err := a.Validate(); err != nil {
